@@ -10,9 +10,11 @@ import MoneroModel.Proofs.KeyOps
 Proved here, about the model `Monero.Keys` (which mirrors `PrivateKey::from_slice` / `PublicKey::from_slice` including dalek's
 permissive `decompress` followed by the recompress-and-compare of key.rs): the acceptance conditions and the byte / text /
 consensus round trips. The "is the group law" half of the property: the POINT operators delegate to curve25519-dalek (a
-dependency), whose results are compared on every run with `Ref.Ed25519` (Drv/C13 + harness/src/c13.rs) — a library-vs-reference
-comparison: the model of the point operators (`Model/KeyOps.lean`) calls the same `Ed.add/Ed.smul/Ed.encodePt` as the
-reference and is its own only in the operand path (permissive `point()` of the stored bytes, panic). That this reference IS
+dependency), whose results are compared on every run with `Ref.Ed25519` (Drv/C13 + harness/src/c13.rs). The model of the point
+operators (`Model/KeyOps.lean`) has its own operand path (permissive `point()` of the stored bytes, panic) and its own `+` / `−`
+(dalek's Niels-form addition transcribed: `dalekAdd`, `dalekSub`, proved equal to `Ed.add` / `Ed.sub`); for scalar multiplication,
+`from_private_key` and the final compression it calls the same `Ed.smul/Ed.encodePt` as the reference, so for those the
+comparison is library-vs-reference only. That this reference IS
 the group law of the curve is proved (last section: `C13_curve_points_form_a_group` pins the operations of `EdPoint` to the
 Edwards addition law, `C13_group_law` ties the executable reference to them). The SCALAR operators are modelled after dalek's
 `Scalar52` (conditional subtraction, Montgomery multiplication) and proved to be arithmetic modulo `l` on accepted keys. -/
@@ -403,7 +405,7 @@ theorem C13_pub_injective (a b : ℕ) (ha : a < Ed.l) (hb : b < Ed.l) (h : a •
 
 /-! ### the operator model of key.rs (`Model/KeyOps.lean`), byte level: decode ∘ group operation ∘ encode, closure, no panic -/
 /-- `a + b` on accepted keys: both operands decode (strictly) to curve points `A`, `B` (`C13_dec_spec` says which); the
-operator (permissive `point()`, extended-coordinate addition, recompression) does not panic and returns the encoding of
+operator (permissive `point()`, dalek's Niels-form addition `dalekAdd`, recompression) does not panic and returns the encoding of
 `A + B`, which is an accepted key -/
 theorem C13_add_bytes (a b : Bytes) (ha : publicAccept a = true) (hb : publicAccept b = true) :
     ∃ A B : EdPoint, edOps.dec a = some A ∧ edOps.dec b = some B ∧
